@@ -20,15 +20,19 @@ class MinMaxValue(GenericValue):
         if self._old_value is undefined:
             state().missing_values += 1
 
+        if self._old_value is not undefined:
+            # always compare with the value in the source: a wrong bound has to be
+            # counted as incorrect even if the comparison succeeds because of fix/update.
+            # A comparison which raises does this before something is recorded.
+            result = self.cmp(self._old_value, other)
+
         if self._new_value is undefined or not self.cmp(self._new_value, other):
             self._new_value = clone(other)
 
         if self._old_value is undefined:
             return True
 
-        # always compare with the value in the source: a wrong bound has to be
-        # counted as incorrect even if the comparison succeeds because of fix/update
-        return self._return(self.cmp(self._old_value, other))
+        return self._return(result)
 
     def _new_code(self):
         return self._file._value_to_code(self._new_value)
